@@ -143,7 +143,7 @@ pub fn run_case(case: &Case) -> Outcome {
     let sharing = case.sharing;
     let probe_keys: Vec<Vec<u64>> = case.threads.iter().map(|ops| {
         let mut keys: Vec<u64> = ops.iter().filter_map(|o| match o {
-            Op::Resolve(i) | Op::Get(_, i) | Op::StreamData(i) | Op::RawImage(i) | Op::ImageData(i) => Some(*i),
+            Op::Resolve(i) | Op::Get(_, i) | Op::StreamData(i) | Op::RawImage(i) | Op::ImageData(i) | Op::FormOps(i) => Some(*i),
             _ => None,
         }).filter(|k| case.probe_ok.contains(k)).collect();
         keys.sort();
@@ -392,7 +392,13 @@ impl C13 {
                     6 => Op::GetPage(if rng.coin() { focus_page } else { rng.below(n_pages as u64 + 1) as u32 }),
                     7 => Op::PageWalk(focus_page),
                     8 => Op::LazyAnnots(focus_page),
-                    _ => Op::LazyFont(focus_page),
+                    _ => {
+                        if rng.chance(1, 3) {
+                            Op::Trees
+                        } else {
+                            Op::LazyFont(focus_page)
+                        }
+                    }
                 };
                 ops_v.push(op);
             }
@@ -422,7 +428,7 @@ impl C13 {
         if sharing != Sharing::PerCall {
             for t in threads.iter_mut() {
                 let mut keys: Vec<u64> = t.iter().filter_map(|o| match o {
-                    Op::Resolve(i) | Op::Get(_, i) | Op::StreamData(i) | Op::RawImage(i) | Op::ImageData(i) => Some(*i),
+                    Op::Resolve(i) | Op::Get(_, i) | Op::StreamData(i) | Op::RawImage(i) | Op::ImageData(i) | Op::FormOps(i) => Some(*i),
                     _ => None,
                 }).collect();
                 keys.sort();
@@ -436,7 +442,7 @@ impl C13 {
         }
         let mut probe_ok = vec![];
         for op in threads.iter().flatten() {
-            if let Op::Resolve(i) | Op::Get(_, i) | Op::StreamData(i) | Op::RawImage(i) | Op::ImageData(i) = op {
+            if let Op::Resolve(i) | Op::Get(_, i) | Op::StreamData(i) | Op::RawImage(i) | Op::ImageData(i) | Op::FormOps(i) = op {
                 if !probe_ok.contains(i) && self.alone_answer(&doc, tolerant, &Op::Resolve(*i)).ok {
                     probe_ok.push(*i);
                 }
@@ -624,7 +630,7 @@ impl Check for C13 {
     }
     fn total_runs(&self, tier: Tier) -> u64 {
         match tier {
-            Tier::Quick => 20_000,
+            Tier::Quick => 50_000,
             Tier::Thorough => 2_000_000,
         }
     }
